@@ -14,6 +14,7 @@ import (
 	"crypto/tls"
 	"encoding/base64"
 	"encoding/json"
+	"errors"
 	"fmt"
 	"net"
 	"os"
@@ -48,7 +49,14 @@ const (
 	// a registered node's (replayed) signed request, presented with a self-signed
 	// certificate: passes the nonce check, must fail the certificate check
 	kAuthReplay = "authenticate-replayed-request-self-signed"
+	// a client of the application's own TLS configuration (passes through unauthenticated)
+	kBase = "base-tls-passthrough"
+	// no client: this handler's call of the base listener's Accept fails once
+	// with an error that is not net.ErrClosed
+	kAcceptErr = "base-accept-error"
 )
+
+var errBaseAccept = errors.New("accept: too many open files")
 
 var sockSeq int64
 
@@ -122,12 +130,19 @@ type yieldingListener struct {
 	order []int // client index of the k-th connection
 	next  int
 	got   map[int]int // handler thread id -> client index
+	// failNext base Accept calls fail (the slot of the scenario they stand for is failSlot)
+	failNext, failSlot int
 }
 
 func (y *yieldingListener) Accept() (net.Conn, error) {
 	vrt.Yield("base.Accept")
 	y.mu.Lock()
 	defer y.mu.Unlock() // accept and numbering are one step
+	if y.failNext > 0 {
+		y.failNext--
+		y.got[handlerID()] = y.failSlot
+		return nil, errBaseAccept
+	}
 	c, err := y.Listener.Accept()
 	if err == nil {
 		ci := -1
@@ -307,8 +322,18 @@ func (w *world) body(sc scenario) (*obs, func(), *harness.MemStore) {
 		panic(err)
 	}
 	yl := &yieldingListener{Listener: inner, got: map[int]int{}}
+	var baseTLS *tls.Config
+	for i, kind := range sc.Clients {
+		if kind == kBase {
+			bk := harness.NewCertKey("c15-app", w.seed)
+			baseTLS = &tls.Config{Certificates: []tls.Certificate{{Certificate: [][]byte{harness.SelfSignedCert(bk, "app")}, PrivateKey: bk.Priv}}, NextProtos: []string{"h2"}, MinVersion: tls.VersionTLS12}
+		}
+		if kind == kAcceptErr {
+			yl.failNext, yl.failSlot = 1, i
+		}
+	}
 	ln, err := protocol.NewInterceptingListener(&protocol.InterceptingListenerConfiguration{
-		Context: harness.Ctx, Storage: st, BaseListener: yl, Options: opts,
+		Context: harness.Ctx, Storage: st, BaseListener: yl, Options: opts, BaseTlsConfiguration: baseTLS,
 		FetchCredsFunc: func(ctx2 context.Context, s nodeenrollment.Storage, req *types.FetchNodeCredentialsRequest, opt ...nodeenrollment.Option) (*types.FetchNodeCredentialsResponse, error) {
 			vrt.Yield("fetch.enter")
 			r, err := registration.FetchNodeCredentials(ctx2, s, req, opt...)
@@ -330,7 +355,7 @@ func (w *world) body(sc scenario) (*obs, func(), *harness.MemStore) {
 	// connect all clients first, in order: the kernel's accept queue is FIFO
 	conns := make([]net.Conn, len(sc.Clients))
 	for i, kind := range sc.Clients {
-		if kind == "" {
+		if kind == "" || kind == kAcceptErr {
 			continue
 		}
 		c, err := net.DialTimeout("unix", sockPath, 10*time.Second)
@@ -343,7 +368,7 @@ func (w *world) body(sc scenario) (*obs, func(), *harness.MemStore) {
 	var cwg sync.WaitGroup
 	for i, kind := range sc.Clients {
 		i, kind := i, kind
-		if kind == "" {
+		if kind == "" || kind == kAcceptErr {
 			continue
 		}
 		cwg.Add(1)
@@ -364,6 +389,16 @@ func (w *world) body(sc scenario) (*obs, func(), *harness.MemStore) {
 				res = w.authClient(conns[i], i, false)
 			case kAuthReplay:
 				res = w.replayClient(conns[i], i)
+			case kBase:
+				tc := tls.Client(conns[i], &tls.Config{MinVersion: tls.VersionTLS12, InsecureSkipVerify: true, NextProtos: []string{"h2", fmt.Sprintf("app-proto-of-client-%d", i)}})
+				tc.SetDeadline(time.Now().Add(60 * time.Second))
+				if err := tc.Handshake(); err != nil {
+					res = "handshake-failed"
+				} else {
+					var b [1]byte
+					tc.Read(b[:])
+					res = "handshake-completed"
+				}
 			}
 			o.mu.Lock()
 			o.client[i] = res
@@ -408,7 +443,13 @@ func (w *world) body(sc scenario) (*obs, func(), *harness.MemStore) {
 				}
 				s = fmt.Sprintf("authenticated state=%s protos=%v peer=%s", st, ps, harness.KeyIdOf(res.PeerKeyPkix)[:12])
 			default:
-				s = "unauthenticated-connection"
+				// what the connection object reports belongs to this connection too
+				st := "<nil>"
+				if res.State != nil {
+					b, _ := json.Marshal(res.State.AsMap())
+					st = string(b)
+				}
+				s = fmt.Sprintf("unauthenticated-connection state=%s protos=%v", st, res.NextProtos)
 			}
 			if res.Conn != nil {
 				res.Conn.Close()
@@ -529,6 +570,10 @@ func scenarios(c *engine.Ctx) []scenario {
 	}
 	// every kind of option the harness puts into the application's list (five), with spare capacity
 	out = append(out, scenario{Clients: []string{kAuth, kAuth}, OptLen: 5, Spare: 1}, scenario{Clients: []string{kToken, kFetchUnknown}, OptLen: 5, Spare: 1})
+	// a listener that also serves the application's own TLS clients, and one whose base listener fails once
+	out = append(out, scenario{Clients: []string{kFetchUnknown, kBase}, OptLen: 1, Spare: 1}, scenario{Clients: []string{kAuthUnknown, kBase}, OptLen: 1, Spare: 1},
+		scenario{Clients: []string{kAuth, kBase}, OptLen: 1, Spare: 1},
+		scenario{Clients: []string{kAuth, kAcceptErr}, OptLen: 1, Spare: 1}, scenario{Clients: []string{kFetchUnknown, kAcceptErr}, OptLen: 1, Spare: 1})
 	// with the random-source seam: a first poll runs to its end (whatever the
 	// listener keeps from one handshake for the next is in place), then two overlap
 	out = append(out, scenario{Clients: []string{kFetchUnknown, kFetchUnknown, kFetchUnknown}, OptLen: 1, Spare: 1, RandSeam: true},
@@ -681,7 +726,7 @@ func init() {
 	engine.Register(&engine.CheckDef{
 		ID:    "C15",
 		Level: "exploration",
-		Rule: "one real InterceptingListener over real (unix-socket) connections; 2 (thorough also 3) handler threads each running one Accept for clients of kinds {fetch by an authorized node, fetch by an unknown node, token enrollment carrying its own state, authentication with its own client state and extra protocols, authentication by an unregistered key, a registered node's replayed request presented with a self-signed certificate}, for application option slices of length 0/1/2 with spare capacity 0/1/4 and of every length 3..9 with exact capacity; every schedule with at most 2 preemptions (thorough: 3 for pairs on three representative option shapes) over the scheduling points {every storage call, entry/exit of the fetch and certificate functions, base Accept}; two scenarios (thorough four) in which the option list carries an application random source whose reads by the TLS layer after the fetch / certificate function returned are scheduling points too (three polls of unauthorized nodes, two authentications); oracle: each connection's (server result, reported state and protocols, client-side answer, created record's state) equals its outcome when handled alone; " +
+		Rule: "one real InterceptingListener over real (unix-socket) connections; 2 (thorough also 3) handler threads each running one Accept for clients of kinds {fetch by an authorized node, fetch by an unknown node, token enrollment carrying its own state, authentication with its own client state and extra protocols, authentication by an unregistered key, a registered node's replayed request presented with a self-signed certificate, a client of the application's own TLS configuration, a handler whose base Accept fails once}, for application option slices of length 0/1/2 with spare capacity 0/1/4 and of every length 3..9 with exact capacity; every schedule with at most 2 preemptions (thorough: 3 for pairs on three representative option shapes) over the scheduling points {every storage call, entry/exit of the fetch and certificate functions, base Accept}; two scenarios (thorough four) in which the option list carries an application random source whose reads by the TLS layer after the fetch / certificate function returned are scheduling points too (three polls of unauthorized nodes, two authentications); oracle: each connection's (server result, reported state and protocols, client-side answer, created record's state) equals its outcome when handled alone; " +
 			"evaluations = schedules executed; distinct_nontrivial = scenarios explored",
 		Assumptions: []string{"code between two scheduling points of one handshake runs atomically w.r.t. the other handshakes (scheduling points are where shared state can be touched: storage and the shared option slice around the function calls); unsynchronised accesses inside those blocks are the -race companion's job", "clients are storage-independent (distinct keys and tokens), so the sequential outcome of each is order-independent"},
 		Shards:      func(c *engine.Ctx) int { return 16 },
